@@ -268,7 +268,8 @@ ATTR_POOL = ["id", "label_asym_id", "auth_asym_id", "type", "name", "value", "de
 VALUE_POOL = ["A", "B", "C", "AA", "a", "b", "A-2", "B-2", "1", "2", "10", "1.50", "0010", "-3.25", "x y", "two  spaces",
               "it's", "O5'", 'N"1', "it's a \"q\" w", "say 'hi' now", "line1\nline2", "; not a block", "_underscore",
               "data_like", "loop_", "#hash", "a#b", "$dollar", "[bracket]", "?", ".", "?x", "..", "N/A",
-              "(2'-5')", "trailing'", "'leading", "long " + "w" * 90, ""]
+              "(2'-5')", "trailing'", "'leading", "long " + "w" * 90, "", "wrapped after a blank \nand continued",
+              "  indented line  \n  second line"]     # (blanks at the very END of a text value are dropped by the mmcif reader)
 ALPHA_POOL = "ABCDEFGHIJKLMNOPQRSTUVWXYZabcdefghijklmnopqrstuvwxyz0123456789!\"#$%&'()*+,-./:;<=>?@[\\]^_`{|}~"
 
 
